@@ -60,6 +60,11 @@ template <class T> static void run_T(Choice &c, Ctx &cx)
         if (o.refine == NOREFINE) {
             for (int j = 0; j < nrhs && ok; ++j) if (!(e.ferr[j] == (R)1 && e.berr[j] == (R)1)) { cx.fail("noref-errors", fmt("IterRefine=NOREFINE but ferr[%d]=%g berr[%d]=%g (both must be exactly 1)", j, (double)e.ferr[j], j, (double)e.berr[j])); ok = false; }
             if (!ok) break;
+#ifdef VF_VENDOR_BLAS
+            // an optimised BLAS may round differently for another leading dimension / alignment: bit-identity with a second
+            // ?gstrs call is only demanded of the bundled reference BLAS (false alarm seen with OpenBLAS, ldx = n + 1)
+            cx.label("unrefined-x:not-bitwise(vendor BLAS)"); nt = e.equed[0] != 'N' || o.trans != NOTRANS; break;
+#endif
             // X must be the unrefined solution: ?gstrs on the (scaled) right-hand side, then the documented unscaling
             std::vector<T> Y((size_t)n * nrhs);
             for (int j = 0; j < nrhs; ++j) for (int i = 0; i < n; ++i) { T v = e.B[(size_t)j * ldb + i]; if (conj_nr) v = to_T<T>(Val{(double)std::real(widen<T>(v)), -(double)std::imag(widen<T>(v))}); Y[(size_t)j * n + i] = v; }   // B on exit is the scaled rhs
